@@ -106,6 +106,10 @@ impl Log {
     pub fn snapshot(&self) -> Vec<Value> {
         self.events.lock().unwrap().clone()
     }
+    /// Number of logged events of one kind.
+    pub fn count(&self, ev: &str) -> usize {
+        self.events.lock().unwrap().iter().filter(|e| e["ev"] == ev).count()
+    }
     pub fn len(&self) -> usize {
         self.events.lock().unwrap().len()
     }
@@ -128,6 +132,8 @@ pub struct Endpoint {
     log: Arc<Log>,
     nreq: AtomicU64,
     open: tokio::sync::Notify,
+    /// closed: every request is read and then held (no reply) until the gate opens again
+    gate: tokio::sync::watch::Sender<bool>,
 }
 
 impl Endpoint {
@@ -136,6 +142,22 @@ impl Endpoint {
     }
     fn pop(&self) -> Decision {
         self.script.lock().unwrap().pop_front().unwrap_or(Decision::Ack)
+    }
+    /// Close (false) or open (true) the gate: while closed the endpoint reads requests but does
+    /// not decide them - a collector that is up but does not answer.
+    pub fn set_gate(&self, open: bool) {
+        self.gate.send_replace(open);
+    }
+    async fn pass_gate(&self, conn: u64) {
+        let mut rx = self.gate.subscribe();
+        if !*rx.borrow_and_update() {
+            self.log.push(json!({"ev": "Held", "ep": self.sig.name(), "conn": conn}));
+            while !*rx.borrow_and_update() {
+                if rx.changed().await.is_err() {
+                    return;
+                }
+            }
+        }
     }
     /// Start listening (for endpoints created refusing).
     pub fn open(&self) {
@@ -225,6 +247,7 @@ impl Collector {
                 log: log.clone(),
                 nreq: AtomicU64::new(0),
                 open: tokio::sync::Notify::new(),
+                gate: tokio::sync::watch::channel(true).0,
             });
             let wait_open = refusing[sig.idx()];
             let ep2 = ep.clone();
@@ -381,6 +404,7 @@ async fn serve_http1(mut sock: TcpStream, conn: u64, ep: Arc<Endpoint>) {
             Ok(_) => buf.push(probe[0]), // (a pipelined byte; keep it)
             Err(_) => {}
         }
+        ep.pass_gate(conn).await;
         let d = ep.pop();
         ep.log_req(conn, &path, d, Some(ids), enc, cenc == "gzip", body.len(), false);
         match d {
@@ -499,6 +523,7 @@ async fn h2_stream(
         ep.log.push(json!({"ev": "Abandoned", "ep": ep.sig.name(), "conn": conn}));
         return;
     }
+    ep.pass_gate(conn).await;
     let d = ep.pop();
     ep.log_req(conn, &path, d, Some(ids), "proto", gz, data.len(), false);
     let resp = |status: u16| http::Response::builder().status(status).header("content-type", "application/grpc").body(()).unwrap();
